@@ -150,6 +150,11 @@ func (p *Proc) setTermios(t *syscall.Termios) error {
 	return ioctl(p.Slave.Fd(), syscall.TCSETS, unsafe.Pointer(t))
 }
 
+// Termios and SetTermios let an executor play the application that changes the terminal's modes
+// between two Readline calls (stty, a password prompt that left echo off ...).
+func (p *Proc) Termios() (*syscall.Termios, error)  { return p.termios() }
+func (p *Proc) SetTermios(t *syscall.Termios) error { return p.setTermios(t) }
+
 func (p *Proc) onlcr() bool {
 	t, err := p.termios()
 	if err != nil {
